@@ -19,7 +19,7 @@ TECHNIQUE = 'static: decision tables of DispatcherBuilder::add (two panics exact
 RULE_TEXT = "one obligation per path class of add, per guard constant, per lock-step mutation site and per total method"
 
 
-def run(ctx, report):
+def _run_rules(ctx, report):
     for config in ctx.configs:
         facts = ctx.facts(config)
         report.guard("C18.REJECT", B.reject, ctx, report, "C18.REJECT", facts, config)
@@ -28,3 +28,10 @@ def run(ctx, report):
         report.guard("C18.ARITH", B.arith, ctx, report, "C18.ARITH", facts, config)
         report.guard("C18.LOCKSTEP", S.lockstep, ctx, report, "C18.LOCKSTEP", facts, config)
         report.guard("C18.NOEXTRA", B.noextra, ctx, report, "C18.NOEXTRA", facts, config)
+
+
+def run(ctx, report):
+    _run_rules(ctx, report)
+    from .. import shared as _S
+    for config in ctx.configs:
+        report.guard("C18.ENCAPSULATED", _S.encapsulated, ctx, report, "C18.ENCAPSULATED", ctx.facts(config), config, "C18")
